@@ -228,3 +228,43 @@ func decisionFunc(rel, fn string, drop ...string) string {
 	}
 	return t.stmts(fd.Body.List)
 }
+
+// optionClosure: the body of the closure `return func(o interface{}) error { ... }` an option
+// constructor returns; statements of the constructor in front of the return (argument checks that
+// run when the option is CREATED) are kept, in a DCall marker list, ahead of the closure's.
+func optionClosure(rel, fn string) string {
+	fd := funcDecl(rel, fn)
+	if fd == nil || fd.Body == nil {
+		die("function %s not found in %s (option translation)", fn, rel)
+	}
+	t := &decTr{g: load(rel), dropAssignFrom: map[string]bool{}}
+	n := len(fd.Body.List)
+	if n >= 1 {
+		if rs, ok := fd.Body.List[n-1].(*ast.ReturnStmt); ok && len(rs.Results) == 1 {
+			if fl, ok := rs.Results[0].(*ast.FuncLit); ok {
+				pre := ""
+				if n > 1 {
+					pre = "DCall \"constructor prologue\"; " + strings.TrimSuffix(strings.TrimPrefix(t.stmts(fd.Body.List[:n-1]), "["), "]") + "; DCall \"closure\"; "
+				}
+				return "[" + pre + strings.TrimPrefix(t.stmts(fl.Body.List), "[")
+			}
+		}
+	}
+	return "[DOther " + q("not a closure-returning constructor") + "]"
+}
+
+// optionLoops: every top-level `for ... range` statement of a function, translated.
+func optionLoops(rel, fn string) []string {
+	fd := funcDecl(rel, fn)
+	if fd == nil || fd.Body == nil {
+		die("function %s not found in %s (option loops)", fn, rel)
+	}
+	t := &decTr{g: load(rel), dropAssignFrom: map[string]bool{}}
+	var out []string
+	for _, s := range fd.Body.List {
+		if r, ok := s.(*ast.RangeStmt); ok {
+			out = append(out, t.stmt(r))
+		}
+	}
+	return out
+}
